@@ -7,7 +7,7 @@ from rules import common
 
 CLAIMED = True
 TECHNIQUE = "static analysis over type-checked MIR: decision-table extraction of the colour-mode initialiser and writer selection, truth table of do_write, static-read dependence of the tty decision, value-set dataflow discharging every bounds/overflow assert of the SGR buffer, store/offset table of the SGR sequence, highlight set/reset level-set agreement, forwarding-wrapper agreement of the console writer stack"
-LEVEL_TEXT = """Static decision of: (X1) the COLOR_MODE initialiser as a decision table over the three flags (NO_COLOR, CLICOLOR_FORCE, CLICOLOR read with env::var(NAME).map(|v| v != "0").unwrap_or(default), defaults false/false/true): Never if NO_COLOR, else Always if CLICOLOR_FORCE, else Never if !CLICOLOR, else Auto; (X2) imp::Writer::{stdout,stderr}: Auto => Some iff isatty(fd)==1 with the matching fd, Always => Some, Never => None; (X3) do_write has the truth table is_tty OR NOT tty_only, append encodes only on the do_write edge, the stream matches Target; (X4) the tty operand of X3 must not depend on COLOR_MODE (today it does: known finding D4); (X5) every bounds/overflow assert and the final range index of AnsiWriter::set_style is discharged by index value sets against the buffer length; (X6) SGR shape as a store table: prefix ESC [ 0, text arm ;3<color>, background arm ;4<color>, intense ;1 / ;22, terminator m, contiguous offsets and matching index increments, slice ends at the terminator, color_byte injective onto '0'..'7' in SGR order; (X7) the set of levels for which Highlight sets a style equals the set for which it resets afterwards; (W1) the console wrapper stack forwards io::Write and set_style. What a terminal renders and pty behaviour are not decided."""
+LEVEL_TEXT = """Static decision of: (X1) the COLOR_MODE initialiser as a decision table over the three flags (NO_COLOR, CLICOLOR_FORCE, CLICOLOR read with env::var(NAME).map(|v| v != "0").unwrap_or(default), defaults false/false/true): Never if NO_COLOR, else Always if CLICOLOR_FORCE, else Never if !CLICOLOR, else Auto; (X2) imp::Writer::{stdout,stderr}: Auto => Some iff isatty(fd)==1 with the matching fd, Always => Some, Never => None; (X3) do_write has the truth table is_tty OR NOT tty_only, append encodes only on the do_write edge, the stream matches Target; (X4) the tty operand of X3 must not depend on COLOR_MODE (today it does: known finding D4); (X5) every bounds/overflow assert and the final range index of AnsiWriter::set_style is discharged by index value sets against the buffer length; (X6) SGR shape as a store table: prefix ESC [ 0, text arm ;3<color>, background arm ;4<color>, intense ;1 / ;22, terminator m, contiguous offsets and matching index increments, slice ends at the terminator, color_byte injective onto '0'..'7' in SGR order; (X7) the set of levels for which Highlight sets a style equals the set for which it resets afterwards; (W1) the console wrapper stack forwards io::Write and set_style. What a terminal renders and pty behaviour are not decided. (X3, cont.) ConsoleAppender::append makes no write/write_all/write_fmt/set_style call of its own."""
 LEVEL_NOTE = "Trusted: rustc MIR/callee resolution; libc::isatty; std::env::var; once_cell::Lazy evaluates the initialiser once. cfg(windows) code is not compiled here and is not analysed."
 EXPLANATION = """Decided: X1 colour decision table, X2 writer selection, X3 do_write table + gating + stream, X4 tty-independence (reports known finding D4), X5 SGR buffer bounds by value sets, X6 SGR store table, X7 highlight pairing, W1 forwarding. Undecided: terminal rendering, pty behaviour, Windows console path (not compiled)."""
 DECIDED = ["X1", "X2", "X3", "X4 (known finding D4)", "X5", "X6", "X7", "W1", "X7 highlight pairing by levels and children loops", "X8 style requests travel through every wrapper", "X9/X10 Style and the console builder keep what they are given"]
@@ -281,6 +281,12 @@ def run_cfg(ctx, p, cfg):
                       detail="encode only on the do_write edge")
             fl = a.calls("std::io::Write::flush")
             r.require(bool(fl) and q.must_follow_on_ok(a, c.block, [x.block for x in fl])[0], "flushes-after-encode", fn=a, detail="console output is flushed after each record")
+        # the appender itself puts no bytes on the stream: text and escape sequences come from the encoder, through the writer's
+        # set_style - which is where the colour policy sits; a raw write of its own would bypass NO_COLOR / the terminal test
+        raw = [c for c in a.calls() if (c.callee or "").rsplit("::", 1)[-1] in ("write", "write_all", "write_fmt", "write_vectored", "set_style") and
+               ("io::Write" in (c.callee or "") + str(c.t.get("decl") or "") + str(c.t.get("decl_trait") or "") or "encode::Write" in (c.callee or "") + str(c.t.get("decl") or ""))]
+        r.require(not raw, "appender-writes-nothing-itself", fn=a, site=(raw[0].at if raw else None), detail="the only uses of the locked writer in append are Encode::encode and flush",
+                  fail_detail="ConsoleAppender::append calls %s on the stream itself: bytes (an escape sequence, say) that do not pass the encoder and the colour policy" % (raw[0].callee if raw else ""))
         rets = q.ret_assignments(a)
         # silent means Ok(()) without writing
         for blk in a.blocks:
